@@ -74,6 +74,7 @@ func (fr *Frame) callInner(in ssa.Instruction, c *ssa.CallCommon, st *State, pc 
 				if cs.Ordinal != 0 && cs.Ordinal != fr.callOrd[name] {
 					continue
 				}
+				fr.csMatched[cs] = true
 				env := fr.specEnv(st, pc)
 				vars := map[string]TV{}
 				for i, a := range bargs {
